@@ -395,3 +395,14 @@ Proof.
   - intro W. inversion W as [|t Hne Hl W' Et]. subst t. vm_compute in W'.
     inversion W' as [|t' Hne' Hl' W'' Et']. subst t'. vm_compute in Hl'. lia.
 Qed.
+
+(* uc_sub for every pair of offsets for which the C text is defined, in one statement: UcMemDefs.uc_sub_t (the model the check
+   runs against the compiled uc.c) = UcDefs.uc_sub where both offsets resolve, the empty string where neither does *)
+Theorem C16_tr_uc_sub_total : forall m b s o beg en t d fuel,
+  str_at m b s -> nonul s -> (o <= length s)%nat -> (length s < fuel)%nat -> Z.of_nat (length s) < 2147483647 ->
+  (G_lit__0 < length m)%nat ->
+  uc_sub_t (skipn o s) beg en = Some t ->
+  callf cprog fuel (S (S (S (S d)))) F_uc_sub [VPtr b (Z.of_nat o); VInt beg; VInt en] m
+  = Ok (VPtr (length m) 0, m ++ [cstr_block (zb t)]).
+Proof. exact tr_uc_sub_total. Qed.
+Print Assumptions C16_tr_uc_sub_total.
